@@ -6,6 +6,7 @@ CONSTANTS
  K = 3
  W = 2
  L = 2
+ HXS = {1, 7}
  Mode = "card"
 INVARIANTS C01_AllShares C01_Missing C01_Sentinel CardInGroup C08_Product C08_Common C03_Schnorr C03_CP C05_NegEquiv C05_Binding C04_CP C02_Mix C02_Glue
 CHECK_DEADLOCK FALSE
